@@ -179,6 +179,8 @@ type wireExec struct {
 	toks   []*wireTok
 	ledger map[string]map[string]bool // issuer DID -> signed contents
 	signed map[string]bool            // canonical encodings of every SigPayload an honest principal signed
+	cur    *wireTok                   // the honest token the current step derives its mutants from
+	offers int
 }
 
 func hasIntegralFloat(v Val) bool {
@@ -603,10 +605,30 @@ func (e *wireExec) offer(data []byte, codec, kind string, few, meter bool) []acc
 		decs = decs[:3]
 	}
 	var out []accepted
+	// every other offer is interleaved with decodes of the HONEST token the data was derived
+	// from, as a service sees them: refused by the decoder of the other type, accepted by its own
+	// (what one decode leaves behind must not help the next)
+	e.offers++
+	prelude := ""
+	if e.cur != nil && !meter {
+		prelude = []string{"", "other.FromSealed", "", "typed.FromSealed", "", "other.FromDagJson", "", "token.FromSealed"}[e.offers%8]
+		if few && e.offers%32 >= 8 {
+			prelude = "" // (the exhaustive enumerations offer to few decoders: a quarter of them is interleaved)
+		}
+	}
 	for _, dec := range decs {
 		var tk token.Token
 		var c cid.Cid
 		var err error
+		if prelude != "" {
+			hb := e.cur.cbor
+			if strings.Contains(prelude, "Json") {
+				hb = e.cur.json
+			}
+			if hb != nil {
+				guardT(o, prelude, len(hb), false, func() { _, _, _ = runDecoder(prelude, e.cur.spec.Kind, hb) })
+			}
+		}
 		keep := string(data)
 		st := guardT(o, dec, len(data), meter, func() { tk, c, err = runDecoder(dec, kind, data) })
 		if keep != string(data) {
@@ -824,6 +846,8 @@ func (e *wireExec) tok(i int) *wireTok {
 func (e *wireExec) step(s *XStep) {
 	o := e.o
 	w := e.tok(s.Tok)
+	e.cur = w
+	defer func() { e.cur = nil }()
 	codec := s.Codec
 	if codec != "json" || w.json == nil {
 		codec = "cbor"
@@ -2119,6 +2143,33 @@ func badDID(alg string, v int) string {
 		raw = append([]byte{0xe7, 0x01, 0x05}, junk(32)...)
 	case "rsa":
 		raw = append([]byte{0x85, 0x24}, junk(40)...)
+	case "rsa-small", "rsa-huge", "rsa-e1":
+		// well-formed PKCS#1 DER whose numbers no sane verifier takes: a modulus of 1024 (512) bits,
+		// of 8200 bits, a public exponent of 1
+		bits, exp := []int{1024, 512, 2040}[v%3], []byte{0x01, 0x00, 0x01}
+		switch alg {
+		case "rsa-huge":
+			bits = []int{8200, 16384}[v%2]
+		case "rsa-e1":
+			bits, exp = 2048, []byte{0x01}
+		}
+		n := junk(bits / 8)
+		n[0] |= 0x80
+		n[len(n)-1] |= 1
+		derLen := func(l int) []byte {
+			switch {
+			case l < 128:
+				return []byte{byte(l)}
+			case l < 256:
+				return []byte{0x81, byte(l)}
+			}
+			return []byte{0x82, byte(l >> 8), byte(l)}
+		}
+		der := func(tag byte, body []byte) []byte {
+			return append(append([]byte{tag}, derLen(len(body))...), body...)
+		}
+		body := append(der(0x02, append([]byte{0x00}, n...)), der(0x02, exp)...)
+		raw = append([]byte{0x85, 0x24}, der(0x30, body)...)
 	case "x25519":
 		raw = append([]byte{0xec, 0x01}, junk(32)...)
 	default:
@@ -2237,8 +2288,19 @@ func (e *wireExec) hostileStep(s *XStep, w *wireTok, env *envelope) {
 			}
 		})
 	case "bad_did":
-		algs := []string{"ed25519", "p256", "p384", "p521", "secp256k1", "rsa", "x25519", "junk"}
+		algs := []string{"ed25519", "p256", "p384", "p521", "secp256k1", "rsa", "x25519", "junk", "rsa-small", "rsa-huge", "rsa-e1"}
 		d := badDID(algs[s.Val%len(algs)], s.At)
+		// such an identifier is met more than once in a process: resolving it again gives the same
+		// answer (an error, or the same key), never a panic
+		for rep := 0; rep < 2; rep++ {
+			guardT(o, "did.Parse / PubKey (hostile did:key)", len(d), false, func() {
+				if x, err := did.Parse(d); err == nil {
+					if pk, perr := x.PubKey(); perr == nil && pk == nil {
+						o.Violate("C10", "nil-without-error", "DID.PubKey returned neither a key nor an error for "+algs[s.Val%len(algs)], nil)
+					}
+				}
+			})
+		}
 		if s.Depth%2 == 1 {
 			// a real principal's identifier, mangled
 			pr := e.cast[(s.Val/8)%len(e.cast)]
